@@ -19,7 +19,7 @@ from ..report import Report
 INSTS = {
     "quick": [("P16", "char", 16, "xtl::buffer | xtl::store_size", "silent_error"), ("E16", "char", 16, "xtl::buffer", "silent_error"),
               ("P255", "char", 255, "xtl::buffer | xtl::store_size", "silent_error"), ("F256", "char", 256, "xtl::buffer | xtl::store_size", "silent_error"),
-              ("P1", "char", 1, "xtl::buffer | xtl::store_size", "silent_error")],
+              ("P1", "char", 1, "xtl::buffer | xtl::store_size", "silent_error"), ("U300", "char16_t", 300, "xtl::buffer | xtl::store_size", "silent_error")],
     "thorough": [("P16", "char", 16, "xtl::buffer | xtl::store_size", "silent_error"), ("E16", "char", 16, "xtl::buffer", "silent_error"),
                  ("P255", "char", 255, "xtl::buffer | xtl::store_size", "silent_error"), ("F256", "char", 256, "xtl::buffer | xtl::store_size", "silent_error"),
                  ("P1", "char", 1, "xtl::buffer | xtl::store_size", "silent_error"), ("T16", "char", 16, "xtl::buffer | xtl::store_size", "throwing_error"),
@@ -225,6 +225,23 @@ def rule_enc(rep, S, cap):
 
 # ---------------------------------------------------------------------------------------------------------------------
 # C01.len
+def rule_enc_as(rep, rid, statement):
+    """the encoder/decoder agreement of every storage layout, decided under the id of another property of which it is a necessary condition"""
+    from ..report import Renamed
+    rep.rule(rid, statement)
+    insts = INSTS["quick"]
+    d = cj.dump(fs.driver(insts), "xtl::")
+    rep.cmd(d.cmd)
+    strs = fs.gather(d, insts)
+    caps = {i[0]: i[2] for i in insts}
+    if set(strs) != set(caps):
+        rep.inconclusive(rid, "storage layouts", "instantiations", detail="found %s, expected %s" % (sorted(strs), sorted(caps)))
+        return
+    r2 = Renamed(rep, {"C01.enc": rid})
+    for tag in sorted(strs):
+        rule_enc(r2, strs[tag], caps[tag])
+
+
 def rule_len(rep, S, R="C01.len"):
     d = S.d
     for fn in S.fns:
@@ -687,9 +704,12 @@ def rule_order(rep, d, S):
         (rep.holds if ok else rep.violates)(R, lab, "common prefix compared in operand order", where=d.where(fn), **({} if ok else {"detail": det + "; expected traits::compare(s1, s2, min(count1, count2))"}))
         resvars = {k for k, v in linit.items() if v[0] == "call" and v[1] == ("ref", "compare")}
         paths = flow.function_paths(fn, with_ctor_inits=False)
-        for rsign, crel in itertools.product((-1, 0, 1), ("<", "=", ">")):
+        for rsign, crel, same_ptr in itertools.product((-1, 0, 1), ("<", "=", ">"), (False, True)):
+            if same_ptr and rsign != 0:
+                continue        # ranges that start at the same address have equal common prefixes
             cv = {"<": (1, 2), "=": (2, 2), ">": (2, 1)}[crel]
-            env = {c1: cv[0], c2: cv[1]}
+            # the two ranges may start at the same character (a string compared with a longer or shorter range of itself)
+            env = {c1: cv[0], c2: cv[1], s1: 4096, s2: 4096 if same_ptr else 8192}
             for rv in resvars:
                 env[rv] = rsign * 7
             got = None
@@ -715,7 +735,7 @@ def rule_order(rep, d, S):
                         got = -eval_pos(t[2], env) if t[0] == "un" and t[1] == "-" and eval_pos(t[2], env) is not None else "?"
                     break
             want = rsign if rsign != 0 else {"<": -1, "=": 0, ">": 1}[crel]
-            scen = "traits compare %s 0, count1 %s count2" % ({-1: "<", 0: "==", 1: ">"}[rsign], crel if crel != "=" else "==")
+            scen = "traits compare %s 0, count1 %s count2%s" % ({-1: "<", 0: "==", 1: ">"}[rsign], crel if crel != "=" else "==", ", both ranges start at the same address" if same_ptr else "")
             if got == "?" or got is None:
                 rep.inconclusive(R, lab, "result sign", where=d.where(fn), scenario=scen, detail="path or result not evaluable")
             elif (got > 0) - (got < 0) != want:
